@@ -6,6 +6,8 @@
   are re-checked against what the code says now.  They hold over an arbitrary field and for every natural count.
 -/
 import Generated.Sequences
+import BartiqModel.Compile
+import Mathlib.Data.Rat.Cast.CharZero
 import Mathlib.Algebra.BigOperators.Group.Finset.Basic
 import Mathlib.Algebra.BigOperators.Ring.Finset
 import Mathlib.Algebra.CharZero.Defs
@@ -54,6 +56,78 @@ theorem C07_constant_prod (n m : ℕ) (x : K) :
     `x/0 = 0`, not `n·x`) -/
 theorem C07_geometric_ratio_one_degenerate (n : ℕ) (x : K) : geomSum n 1 x = 0 := by
   simp [geomSum]
+
+/-! ### the model of `get_sum` / `get_prod` (BartiqModel/Compile.lean, corresponded with the code on every run) evaluates to the
+    unrolled sums — under EVERY interpretation of the expression language in a field of characteristic 0 that gives
+    `+ - * /` and natural powers their meaning -/
+
+/-- an interpretation in a field that respects literals, `+ - * /` (division by a non-zero value) and natural powers -/
+structure FieldLike (A : Alg K) : Prop where
+  lit : ∀ q : ℚ, A.lit q = some (q : K)
+  add : ∀ a b, A.bin .add a b = some (a + b)
+  sub : ∀ a b, A.bin .sub a b = some (a - b)
+  mul : ∀ a b, A.bin .mul a b = some (a * b)
+  div : ∀ a b, b ≠ 0 → A.bin .div a b = some (a / b)
+  pow : ∀ a (n : ℕ), A.bin .pow a (n : K) = some (a ^ n)
+
+variable {A : Alg K} {ρ : Env K}
+
+/-- constant sequence in the model: additive resource = Σ_{i<n} m·x -/
+theorem C07_model_constant_sum (hA : FieldLike A) (cnt m x : Expr) (n : ℕ) (vm vx : K)
+    (hc : Expr.eval A ρ cnt = some (n : K)) (hm : Expr.eval A ρ m = some vm) (hx : Expr.eval A ρ x = some vx) :
+    ∃ e, Seq.getSum cnt x (.constant m) = .ok e ∧ Expr.eval A ρ e = some (∑ _i ∈ range n, vm * vx) := by
+  refine ⟨_, rfl, ?_⟩
+  simp only [Expr.eval, hc, hm, hx, Option.bind_some, hA.mul]
+  rw [← C07_constant_sum]; simp only [constSum]; congr 1; ring
+
+/-- arithmetic sequence in the model: Σ_{i<n} (a + i·d)·x -/
+theorem C07_model_arithmetic_sum [CharZero K] (hA : FieldLike A) (cnt a d x : Expr) (n : ℕ) (va vd vx : K)
+    (hc : Expr.eval A ρ cnt = some (n : K)) (ha : Expr.eval A ρ a = some va) (hd : Expr.eval A ρ d = some vd)
+    (hx : Expr.eval A ρ x = some vx) :
+    ∃ e, Seq.getSum cnt x (.arithmetic a d) = .ok e ∧ Expr.eval A ρ e = some (∑ i ∈ range n, (va + (i : K) * vd) * vx) := by
+  refine ⟨_, rfl, ?_⟩
+  simp only [Expr.eval, hc, ha, hd, hx, Option.bind_some, hA.mul, hA.add, hA.sub, hA.lit]
+  rw [← C07_arithmetic_sum]; simp only [arithSum]; congr 1; push_cast; ring
+
+/-- geometric sequence (ratio ≠ 1) in the model: Σ_{i<n} rⁱ·x -/
+theorem C07_model_geometric_sum (hA : FieldLike A) (cnt r x : Expr) (n : ℕ) (vr vx : K) (hr : vr ≠ 1)
+    (hc : Expr.eval A ρ cnt = some (n : K)) (hr' : Expr.eval A ρ r = some vr) (hx : Expr.eval A ρ x = some vx) :
+    ∃ e, Seq.getSum cnt x (.geometric r) = .ok e ∧ Expr.eval A ρ e = some (∑ i ∈ range n, vr ^ i * vx) := by
+  refine ⟨_, rfl, ?_⟩
+  have h1 : ((1 : ℚ) : K) - vr ≠ 0 := by
+    rw [Rat.cast_one]; exact sub_ne_zero.mpr (Ne.symm hr)
+  simp only [Expr.eval, hc, hr', hx, Option.bind_some, hA.mul, hA.sub, hA.lit, hA.pow, hA.div _ _ h1]
+  rw [← C07_geometric_sum n vr vx hr]; simp only [geomSum]; congr 1
+  have h2 : (1 : K) - vr ≠ 0 := sub_ne_zero.mpr (Ne.symm hr)
+  have e : ((1 : K) + -1 * vr) = 1 - vr := by ring
+  rw [e, Rat.cast_one]; field_simp; ring
+
+/-- constant sequence, multiplicative resource in the model: Π_{i<n} x^m (natural multiplier) -/
+theorem C07_model_constant_prod (hA : FieldLike A) (cnt m x : Expr) (n mm : ℕ) (vx : K)
+    (hc : Expr.eval A ρ cnt = some (n : K)) (hm : Expr.eval A ρ m = some (mm : K)) (hx : Expr.eval A ρ x = some vx) :
+    ∃ e, Seq.getProd cnt x (.constant m) = .ok e ∧ Expr.eval A ρ e = some (∏ _i ∈ range n, vx ^ mm) := by
+  refine ⟨_, rfl, ?_⟩
+  simp only [Expr.eval, hc, hm, hx, Option.bind_some, hA.mul]
+  rw [show ((n : K) * (mm : K)) = ((n * mm : ℕ) : K) by push_cast; ring, hA.pow]
+  rw [← C07_constant_prod]; simp only [constProd]; congr 1; ring_nf
+
+-- non-vacuity: exact rational arithmetic is such an interpretation
+def ratFieldAlg : Alg ℚ :=
+  { lit := some, neg := fun a => some (-a),
+    bin := fun op a b => match op with
+      | .add => some (a + b) | .sub => some (a - b) | .mul => some (a * b)
+      | .div => if b = 0 then none else some (a / b)
+      | .pow => if b.den = 1 ∧ 0 ≤ b.num then some (a ^ b.num.toNat) else none
+      | _ => none,
+    fn := fun _ _ => none, big := fun _ _ _ _ => none }
+
+example : FieldLike ratFieldAlg where
+  lit := by intro q; simp [ratFieldAlg]
+  add := by intros; rfl
+  sub := by intros; rfl
+  mul := by intros; rfl
+  div := by intro a b hb; simp [ratFieldAlg, hb]
+  pow := by intro a n; simp [ratFieldAlg]
 
 -- non-vacuity: concrete instances over ℚ
 example : arithSum (K := ℚ) 4 2 3 5 = (2 + 5 + 8 + 11) * 5 := by norm_num [arithSum]
